@@ -1,2 +1,147 @@
--- stub: replaced by the C09 driver
-def main : IO Unit := pure ()
+/-
+  Driver.C09 — runs the C09 Spec (`HMap.S.step`) and the C09 CodeModel (`HMap.LMap.step`) side by
+  side on one history of operations; one request line → one answer line.
+
+    N <TypeName> <hash> <cap> <thr> [R]  new session, configured from `HMap.linkedTypes`        → ok
+        hash: id | mod3 | const | poly    (any function: the theorems hold for every hash)
+        thr : cap:threshold,cap:threshold,…  (thresholds of the successive capacities; computed by the
+              harness with Go's float32 arithmetic — the theorems hold for every threshold function)
+    P <L|FL|FF|F> k v   A <mode> k v   AN k v   G k   GL k   CK k   CV v   FK LK FV LV   R k   RF RL
+    C   SZ IE IF   SM n   SO asc|desc   KS VS ES
+
+  Answer: the Spec's output;  `MISMATCH …` if the CodeModel's output or abstraction differs
+  (cannot happen: `C09.refine_step`).  Keys: integers, or strings over [A-Za-z0-9_] with `~` = "".
+-/
+import Golib.HMap.Linked
+import Golib.HMap.Types
+import Driver.Common
+
+open HMap Drv
+
+structure Sess (K : Type) [DecidableEq K] where
+  d : Desc K Int
+  hash : K → Nat
+  thr : Nat → Nat
+  spec : S K Int
+  conc : LMap K Int
+
+inductive St
+  | none
+  | ints (s : Sess Int)
+  | strs (s : Sess String)
+
+def showList (f : α → String) (xs : List α) : String :=
+  if xs.isEmpty then "[]" else ",".intercalate (xs.map f)
+
+def showOut (sk : K → String) : Out K Int → String
+  | .unit => "u"
+  | .none => "-"
+  | .val v => toString v
+  | .key k => sk k
+  | .bool b => if b then "T" else "F"
+  | .nat n => toString n
+  | .keys ks => showList sk ks
+  | .vals vs => showList toString vs
+  | .ents es => showList (fun e => sk e.1 ++ "=" ++ toString e.2) es
+
+def showStrKey (s : String) : String := if s.isEmpty then "~" else s
+def parseStrKey (s : String) : Option String := if s == "~" then some "" else some s
+
+def parseMode : String → Option Mode
+  | "L" => some .last | "FL" => some .forceLast | "FF" => some .forceFirst | "F" => some .first
+  | _ => none
+
+def parseOp [LT K] [DecidableRel (α := K) (· < ·)] (pk : String → Option K) (ws : List String) : Option (Op K Int) :=
+  match ws with
+  | ["P", m, k, v] => do some (.put (← parseMode m) (← pk k) (← parseInt v))
+  | ["A", m, k, v] => do some (.add (← parseMode m) (← pk k) (← parseInt v))
+  | ["AN", k, v] => do some (.addNoOver (← pk k) (← parseInt v))
+  | ["G", k] => do some (.get (← pk k))
+  | ["GL", k] => do some (.getLRU (← pk k))
+  | ["CK", k] => do some (.containsKey (← pk k))
+  | ["CV", v] => do some (.containsValue (← parseInt v))
+  | ["FK"] => some .firstKey
+  | ["LK"] => some .lastKey
+  | ["FV"] => some .firstValue
+  | ["LV"] => some .lastValue
+  | ["R", k] => do some (.remove (← pk k))
+  | ["RF"] => some .removeFirst
+  | ["RL"] => some .removeLast
+  | ["C"] => some .clear
+  | ["SZ"] => some .size
+  | ["IE"] => some .isEmpty
+  | ["IF"] => some .isFull
+  | ["SM", n] => do some (.setMax (← parseNat n))
+  | ["SO", "asc"] => some (.sort (fun a b => decide (a < b)))
+  | ["SO", "desc"] => some (.sort (fun a b => decide (b < a)))
+  | ["KS"] => some .keys
+  | ["VS"] => some .values
+  | ["ES"] => some .entries
+  | _ => none
+
+def stepSess [DecidableEq K] [LT K] [DecidableRel (α := K) (· < ·)]
+    (pk : String → Option K) (sk : K → String) (s : Sess K) (ws : List String) : Sess K × String :=
+  match parseOp pk ws with
+  | none => (s, "bad-op")
+  | some op =>
+    let (sp, o1) := S.step s.d s.spec op
+    let (cm, o2) := LMap.step s.hash s.thr s.d s.conc op
+    let absOk := match op with
+      | .entries => decide (cm.entries s.hash = sp.ents) && decide (cm.count = sp.ents.length) && decide (cm.max = sp.max)
+      | _ => true
+    let txt := showOut sk o1
+    let txt := if o1 = o2 && absOk then txt else "MISMATCH spec=" ++ txt ++ " model=" ++ showOut sk o2
+    ({ s with spec := sp, conc := cm }, txt)
+
+def parseThr (s : String) : Option (List (Nat × Nat)) :=
+  parseList (fun p => match p.splitOn ":" with
+    | [a, b] => do some ((← parseNat a), (← parseNat b))
+    | _ => none) s
+
+def thrOf (tbl : List (Nat × Nat)) (cap : Nat) : Nat :=
+  match tbl.lookup cap with
+  | some t => t
+  | none => cap
+
+def intHash : String → Option (Int → Nat)
+  | "id" => some (fun k => (k % 18446744073709551616).toNat)
+  | "mod3" => some (fun k => (k % 3).toNat)
+  | "const" => some (fun _ => 7)
+  | "poly" => some (fun k => ((k * 31 + 17) % 4294967296).toNat)
+  | _ => none
+
+def polyStr (s : String) : Nat := s.toList.foldl (fun h c => (31 * h + c.toNat) % 18446744073709551616) 0
+
+def strHash : String → Option (String → Nat)
+  | "id" | "poly" => some polyStr
+  | "mod3" => some (fun s => polyStr s % 3)
+  | "const" => some (fun _ => 7)
+  | _ => none
+
+def newSess [DecidableEq K] (t : TypeDesc) (isEmpty : K → Bool)
+    (hash : K → Nat) (cap : Nat) (tbl : List (Nat × Nat)) : Sess K :=
+  { d := t.descOf isEmpty, hash := hash, thr := thrOf tbl, spec := {}, conc := LMap.new (thrOf tbl) cap }
+
+def answer (st : St) (line : String) : St × String :=
+  let ws := (line.splitOn " ").filter (fun w => !w.isEmpty)
+  match ws with
+  | "N" :: tn :: hk :: cap :: thr :: rest =>
+    -- a trailing `R` selects the repaired descriptor (the harness sends it once a known finding no longer reproduces)
+    match (findType linkedTypes tn).map (fun t => if rest == ["R"] then t.repaired else t), parseNat cap, parseThr thr with
+    | some t, some cap, some tbl =>
+      if t.key != .str then
+        match intHash hk with
+        | some h => (.ints (newSess t (fun _ => false) h cap tbl), "ok")
+        | none => (st, "bad-new")
+      else
+        match strHash hk with
+        | some h => (.strs (newSess t (fun (s : String) => s.isEmpty) h cap tbl), "ok")
+        | none => (st, "bad-new")
+    | _, _, _ => (st, "bad-new")
+  | _ =>
+    match st with
+    | .none => (st, "no-session")
+    | .ints s => let (s', o) := stepSess parseInt toString s ws; (.ints s', o)
+    | .strs s => let (s', o) := stepSess parseStrKey showStrKey s ws; (.strs s', o)
+
+def main : IO Unit := mainLoop St.none answer
